@@ -4,9 +4,8 @@
      spec_ok : the statement of C12 evaluated on the implementation's values alone (tiling, inside, disjoint, ancilla cover with
                the 0-round gap, translation by the cycle length; estimate) -- no model function is called.
    The estimate clause is a case kind of its own (CEst): it is judged, as the property states it, against the kernel_cycle_length of
-   the experiment kernel built from the same description.  For qutrit_calibration_points = False the code does not meet it (known
-   finding F15, theorem C12_estimate_vs_kernel_cycle_flag_off_refuted); keeping the clause apart lets the harness excuse exactly that
-   clause and nothing else of such a description. *)
+   the experiment kernel built from the same description, for both values of qutrit_calibration_points (finding F15: before its
+   fix the flag-off descriptions failed exactly this clause and the `calibration kernel present iff flag` clause of CExp). *)
 From Coq Require Import ZArith List Bool.
 Import ListNotations.
 From QCE Require Import Base.Prelude C12.Model.
@@ -23,7 +22,7 @@ Record qobs := MkQobs { qo_n : Z; qo_her : list (list Z); qo_sp : list (list Z);
 
 Inductive case :=
 | CExp (rounds : list Z) (h c : bool) (reps : Z) (data anc : list Z) (q : Z)
-       (start stop L klen xreps : Z) (ks : list kobs) (cal : cobs) (qs : list qobs)
+       (start stop L klen xreps : Z) (ks : list kobs) (cal : list cobs) (qs : list qobs)
        (cal_her cal_proj : list (list Z))                       (* experiment-level calibration getters, per StateKey *)
 | CEst (rounds : list Z) (h c : bool) (reps : Z) (data anc : list Z)
        (L : Z)                                                  (* kernel_cycle_length of RepetitionExperimentKernel(rounds, h, c, data, anc, reps) *)
@@ -75,7 +74,10 @@ Definition agree (cs : case) : bool :=
           && (L =? RepetitionExperimentKernel_kernel_cycle_length e) && (klen =? RepetitionExperimentKernel_kernel_length e)
           && (xreps =? RepetitionExperimentKernel_experiment_repetitions e)
           && list_eqb kobs_eqb (map (kobs_of q) (RepetitionExperimentKernel__repetition_kernels e)) ks
-          && cobs_eqb (cobs_of q (RepetitionExperimentKernel__calibration_kernel e)) cal
+          (* the calibration kernel is observed exactly when it is one of indexing_kernels *)
+          && list_eqb cobs_eqb (if (length (RepetitionExperimentKernel_indexing_kernels e)
+                                     =? S (length (RepetitionExperimentKernel__repetition_kernels e)))%nat
+                                then [cobs_of q (RepetitionExperimentKernel__calibration_kernel e)] else []) cal
           && list_eqb qobs_eqb (map (fun o => qobs_of e q (qo_n o)) qs) qs
           && mat_eqb (map (RepetitionExperimentKernel_get_heralded_calibration_acquisition_indices e q) StateKey_all) cal_her
           && mat_eqb (map (RepetitionExperimentKernel_get_projected_calibration_acquisition_indices e q) StateKey_all) cal_proj
@@ -138,17 +140,19 @@ Definition spec_ok (cs : case) : bool :=
   | CExp rounds h c reps data anc q start stop L klen xreps ks cal qs cal_her cal_proj =>
       let man := is_member q anc in
       let mall := is_member q (data ++ anc) in
-      (* kernels contiguous and non-overlapping, one per rounds entry, calibration kernel last *)
+      let tiles := map (fun k => (ko_start k, ko_stop k, ko_len k)) ks ++ map (fun k => (co_start k, co_stop k, co_len k)) cal in
+      (* kernels contiguous and non-overlapping, one per rounds entry, then the calibration kernel iff calibration points are on *)
       negb (match ks with [] => true | _ => false end)
       && lz_eqb (map ko_n ks) rounds
-      && tile_ok 0 (map (fun k => (ko_start k, ko_stop k, ko_len k)) ks ++ [(co_start cal, co_stop cal, co_len cal)])
-      && (start =? 0) && (L =? co_stop cal - start + 1) && (xreps =? reps)
+      && (length cal =? (if c then 1 else 0))%nat
+      && tile_ok 0 tiles
+      && (start =? 0) && (L =? last (map (fun t => snd (fst t)) tiles) (-1) - start + 1) && (xreps =? reps)
       (* categories inside / disjoint / ancilla cover *)
-      && forallb (kernel_ok man) ks && cal_ok mall cal
+      && forallb (kernel_ok man) ks && forallb (cal_ok mall) cal
       (* repetitions are translates by the cycle length *)
       && forallb (translate_ok L reps ks) qs
-      && mat_eqb cal_her (map (fun b => concat (translates b L reps)) (co_her cal))
-      && mat_eqb cal_proj (map (fun b => concat (translates b L reps)) (co_st cal))
+      && mat_eqb cal_her (match cal with k :: _ => map (fun b => concat (translates b L reps)) (co_her k) | [] => [[]; []; []] end)
+      && mat_eqb cal_proj (match cal with k :: _ => map (fun b => concat (translates b L reps)) (co_st k) | [] => [[]; []; []] end)
   | CEst rounds h c reps data anc L sizes ests =>
       (* the estimate inverts dataset size = repetitions x kernel cycle length: n on n x L, its own AssertionError elsewhere *)
       (1 <=? L) && (length sizes =? length ests)%nat
